@@ -35,6 +35,14 @@ pub enum UC {
     None,
 }
 
+/// Lives in `shared/abc.ts` too, but spells the path differently.
+#[derive(TS, Serialize, Deserialize, Clone, Debug, Samples)]
+#[ts(export_to = "shared/sub/../abc.ts")]
+pub struct UI {
+    pub b: Option<Box<UB>>,
+    pub h: UH,
+}
+
 #[derive(TS, Serialize, Deserialize, Clone, Debug, Samples)]
 pub struct UD {
     pub e: Vec<UE>,
@@ -149,6 +157,7 @@ pub fn registry() -> Vec<TypeEntry> {
         TypeEntry::serde::<UG<u8>>("UG", "UG<u8>"),
         TypeEntry::serde::<UGx>("UGx", "UGx"),
         TypeEntry::serde::<UH>("UH", "UH"),
+        TypeEntry::serde::<UI>("UI", "UI"),
         TypeEntry::ts::<Foo>("Foo", "Foo"),
         TypeEntry::ts::<FooBar>("FooBar", "FooBar"),
         TypeEntry::ts::<Foo1<u8>>("Foo1", "Foo1<u8>"),
